@@ -5,6 +5,7 @@ import (
 	"encoding/base64"
 	"fmt"
 	"net/url"
+	"strings"
 
 	"github.com/zitadel/saml/pkg/provider/serviceprovider"
 	"github.com/zitadel/saml/pkg/provider/signature"
@@ -68,6 +69,87 @@ func verifyRedirectSignature(
 		errF(err)
 		return err
 	}
+}
+
+// verifyRedirectSignatureAsReceived verifies the signature of a request in the redirect binding over the query as it was received.
+//
+// The signature of the redirect binding is calculated over the url-encoded values, and url-encoding is not unique
+// (case of the hex digits, which characters are escaped, space as + or %20). Bindings 3.4.4.1 therefore demands to verify over
+// "the original URL-encoded values it received on the query string", re-encoding the decoded values only works for service providers
+// which escape exactly like net/url does. If the query can not be used, or the signature does not verify over it
+// (the query may have been re-encoded on the way), the re-encoded values are used as before.
+func verifyRedirectSignatureAsReceived(
+	rawQuery func() string,
+	authRequest func() string,
+	relayState func() string,
+	sig func() string,
+	sigAlg func() string,
+	sp func() *serviceprovider.ServiceProvider,
+	errF func(error),
+) func() error {
+	reEncoded := verifyRedirectSignature(authRequest, relayState, sig, sigAlg, sp, errF)
+	return func() error {
+		spInstance := sp()
+		if spInstance != nil && authRequest() != "" && sig() != "" && sigAlg() != "" {
+			signedQuery, ok := signedQueryAsReceived(rawQuery(), authRequest(), relayState(), sigAlg())
+			if ok && signedQuery != serviceprovider.SignedRedirectQuery(authRequest(), relayState(), sigAlg()) &&
+				spInstance.ValidateRedirectSignatureOverQuery(signedQuery, sigAlg(), sig()) == nil {
+				errF(nil)
+				return nil
+			}
+		}
+		return reEncoded()
+	}
+}
+
+// signedQueryAsReceived cuts the octet string the signature is calculated over out of the received query,
+// which is SAMLRequest=value&RelayState=value&SigAlg=value in this order, however they are ordered in the query.
+//
+// The result is only usable if it stands for exactly the values which are processed afterwards, so each of the parameters
+// may only be contained once, with its name unescaped, and its value has to decode to the value read from the form.
+// This is not the case if the value of the form was taken from the body, or if a parameter is contained several times.
+func signedQueryAsReceived(rawQuery, authRequest, relayState, sigAlg string) (string, bool) {
+	raw := map[string]string{}
+	for _, part := range strings.Split(rawQuery, "&") {
+		if part == "" {
+			continue
+		}
+		rawKey, rawValue, _ := strings.Cut(part, "=")
+		key, err := url.QueryUnescape(rawKey)
+		if err != nil || strings.Contains(part, ";") {
+			return "", false
+		}
+		switch key {
+		case "SAMLRequest", "RelayState", "SigAlg":
+			if _, twice := raw[key]; twice || key != rawKey {
+				return "", false
+			}
+			raw[key] = rawValue
+		}
+	}
+
+	decodesTo := func(key, value string) bool {
+		rawValue, ok := raw[key]
+		if !ok {
+			return false
+		}
+		decoded, err := url.QueryUnescape(rawValue)
+		return err == nil && decoded == value
+	}
+
+	if !decodesTo("SAMLRequest", authRequest) || !decodesTo("SigAlg", sigAlg) {
+		return "", false
+	}
+	query := "SAMLRequest=" + raw["SAMLRequest"]
+	if _, ok := raw["RelayState"]; ok {
+		if !decodesTo("RelayState", relayState) {
+			return "", false
+		}
+		query += "&RelayState=" + raw["RelayState"]
+	} else if relayState != "" {
+		return "", false
+	}
+	return query + "&SigAlg=" + raw["SigAlg"], true
 }
 
 func createRedirectSignature(
